@@ -177,6 +177,10 @@ def run(ctx):
     if not r["ok"]:
         ctx.violation(dict(stage="proof", kind="theorem or table obligation broken", issues=r["issues"]), has_input=False)
     T = C02.Tables()
+    listed = vlib.known_findings("C03")
+    for op_ in list(KNOWN):
+        if KNOWN[op_] not in listed:
+            del KNOWN[op_]
     ops = sorted(o for o in T.code if o not in SKIP)
     per = 2 if ctx.quick else 20
     built = []
